@@ -25,6 +25,8 @@ class Registry:
         self.assumed = []        # free-text assumptions
         self.opaque = {}         # callee name -> dict(describing assumed behaviour)
         self.inline = {}         # callee name -> (relpath, qualname)
+        self.dataclasses = {}    # class name -> repo file
+        self.extracts = []       # (module, owner, [names])
         self.sidecars = []
 
 
@@ -103,6 +105,17 @@ def lemma(requires=(), ensures=(), decreases=None, induct=None):
 
 def classes(d):
     REG.classes.update(d)
+
+
+def consts_from(module, owner, names):
+    """constants read from the REAL module by native/extract.py before the prover runs: `owner.NAME` becomes usable in the
+    verified code and in contracts (e.g. InternalEvents.FLOW_FINISHED)"""
+    REG.extracts.append((module, owner, list(names)))
+
+
+def dataclass_of(name, file):
+    """declare a repository dataclass whose constructor calls are modelled from its real field list (read from `file`)"""
+    REG.dataclasses[name] = file
 
 
 def assume(text):
